@@ -251,7 +251,7 @@ def apply_step(st: Store, sn: str, i: int, ev: dict, stp: str, res: dict, ctx: d
         yield out(st2, ("OK",))
         return
     try:
-        if op in ("noop", "check", "capability", "namespace", "lsub"):
+        if op in ("noop", "check", "capability", "namespace", "lsub", "idle", "done"):
             s_ = st2.session(sn)
             orphaned = bool(getattr(s_, "orphaned", False))
             _sync(st2, sn)
